@@ -475,7 +475,11 @@ fn main() {
             "A" => {
                 let k: u32 = tok[1].parse().unwrap();
                 let p = parsers.entry(k).or_default();
-                p.allowed_versions = nums(tok[2]).iter().map(|x| *x as u16).collect();
+                p.allowed_versions = if tok[2] == "*" {
+                    (0..=65535u16).collect()
+                } else {
+                    nums(tok[2]).iter().map(|x| *x as u16).collect()
+                };
             }
             "B" | "F" => {
                 let k: u32 = tok[1].parse().unwrap();
